@@ -1,4 +1,4 @@
-From Verif Require Import Lib.Base NodeDB.Spec NodeDB.Badger NodeDB.BadgerProofs NodeDB.Crash NodeDB.CrashProofs.
+From Verif Require Import Lib.Base NodeDB.Spec NodeDB.Badger NodeDB.BadgerProofs NodeDB.Crash NodeDB.CrashProofs NodeDB.Multipart NodeDB.MultipartProofs.
 
 Theorem crash_hyps_hold_after_every_history :
   forall h, ok_run bdb0 h = true -> inv (c_b (c_run cdb0 h)) /\ rk_inv (c_run cdb0 h).
@@ -65,3 +65,30 @@ Theorem crash_safe_prune_on_witness :
   snd (run_all c (OPrune 1)) = snd (run_all_orig c (OPrune 1)).
 Proof. exact crash_prune_alt_witness. Qed.
 Print Assumptions crash_safe_prune_on_witness.
+
+Theorem multipart_invisible :
+  forall m0 v chunks o k,
+  m_mp m0 = 0 -> m_log m0 = [] -> v <> 0 -> Forall (chunk_at v) chunks -> chunk_at v o ->
+  let m1 := m_run m0 (MStart v :: chunks) in
+  d_last (m_meta m1) = d_last (m_meta m0) /\
+  (forall j, d_last (m_meta (m_run_until j m1 o)) = d_last (m_meta m0)) /\
+  let m2 := m_reopen (m_run_until k m1 o) in
+  m_mp m2 = 0 /\ m_log m2 = [] /\ d_last (m_meta m2) = d_last (m_meta m0) /\
+  forall n, visible n v (m_store m2) = visible n v (m_store m0).
+Proof. exact multipart_invisible_l. Qed.
+Print Assumptions multipart_invisible.
+
+Theorem badger_restore_finalize_crash_refuted :
+  let m := m_run mdb0 h_restore in
+  m_status m 3 2 = 1 /\ d_last (m_meta m) = None /\
+  m_status (m_reopen (snd (m_run_all m (MFinalize 3 [2])))) 3 2 = 1 /\
+  let m2 := m_reopen (m_run_until 2 m (MFinalize 3 [2])) in
+  d_last (m_meta m2) = Some 3 /\ m_status m2 3 2 = 3 /\ b_status (c_b (m_c m2)) 3 2 = 2.
+Proof. exact badger_restore_finalize_crash_refuted_l. Qed.
+Print Assumptions badger_restore_finalize_crash_refuted.
+
+Theorem aborted_restore_root_listed_not_finalized :
+  let m := snd (m_run_all (m_run mdb0 h_restore) MAbort) in
+  has_rid 2 (roots_at (m_meta m) 3) = true /\ d_last (m_meta m) = None /\ m_status m 3 2 = 3.
+Proof. exact abort_leaves_root_listed. Qed.
+Print Assumptions aborted_restore_root_listed_not_finalized.
